@@ -167,6 +167,17 @@ static void run_case(Ctx& c, uint64_t idx) {
                 s.path = segments_to_path(b.hasAuth, abs, segs); if (r.coin()) { s.hasQuery = r.coin(); s.query = "k"; } if (r.chance(1, 4)) { s.hasFrag = true; s.frag = "f"; } S = recompose(s); gen = "overlap"; } else S = B; } break;
         default: { size_t e; if (dfa_uriref(B, &e)) { Comp b = split(B); Comp s = b; int op = r.below(4); if (op == 0) { s.hasPort = !s.hasPort; s.port = "9"; } else if (op == 1) { s.hasUser = !s.hasUser; s.user = "w"; } else if (op == 2 && s.hasAuth) { s.host = "other"; s.hostKind = HK_REGNAME; s.ip.clear(); } else { s.hasAuth = !s.hasAuth; if (s.hasAuth) { s.hostKind = HK_REGNAME; s.host = "h"; if (!s.path.empty() && s.path[0] != '/') s.path = "/" + s.path; } else { s.hasUser = s.hasPort = false; s.hostKind = HK_NONE; s.host.clear(); s.ip.clear(); } } if (!s.hasAuth) { s.hasUser = s.hasPort = false; } S = recompose(s); gen = "authority-variant"; } else S = B; } break;
         }
+        if (r.chance(1, 12)) {      // authority comparison per host kind: same address spelled differently, one byte / one letter different, look-alikes of another kind
+            static const char* const HG[][6] = {{"1.2.3.4", "1.2.3.5", "1.2.4.4", "2.2.3.4", "1.2.3.04", "1.2.3.4"}, {"[::1]", "[0:0:0:0:0:0:0:1]", "[::2]", "[1::1]", "[::0.0.0.1]", "[::1:0:1]"},
+                {"[1:2:3:4:5:6:7:8]", "[1:2:3:4:5:6:0.7.0.8]", "[1:2:3:4:5:6:7:9]", "[0001:2:3:4:5:6:7:8]", "[1:2:3:4:5:6:7:8]", "[2:2:3:4:5:6:7:8]"}, {"[v1.x]", "[V1.x]", "[v1.X]", "[v1.xy]", "[v2.x]", "[v1.x]"},
+                {"h", "H", "h%41", "hA", "h.", "h"}, {"1.2.3.4", "[::1.2.3.4]", "[v4.1.2.3.4]", "1.2.3.4.", "1.2.3", "01.2.3.4"}};
+            static const char* const UP[] = {"", "u@", "U@", "@", ":@", "u:p@"}; static const char* const PT[] = {"", ":", ":1", ":01", ":2", ":1"};
+            static const char* const PA[] = {"", "/", "/a/b/c", "/a/b/d", "/a/b", "/a/b/", "/a/x/c", "//a"};
+            const char* const* g = HG[r.below(6)]; int w = (int)r.below(4);
+            S = Str("s://") + (w == 1 ? UP[r.below(6)] : "u@") + g[r.below(6)] + (w == 2 ? PT[r.below(6)] : ":1") + PA[r.below(8)];
+            B = Str("s://") + (w == 1 ? UP[r.below(6)] : "u@") + g[r.below(6)] + (w == 2 ? PT[r.below(6)] : ":1") + PA[r.below(8)];
+            gen = "hostkinds";
+        }
         if (r.chance(1, 50)) S = gen_uri(r);       // may be relative: error-code clause
     }
     c.count(Str("gen_") + gen);
